@@ -193,6 +193,13 @@ fn v2_cases() -> Vec<Vec<u8>> {
             for l in [0u16, 1, 11, 12, 13, 35, 36, 37, 215, 216, 217, 0x7fff, 0x8000, 0xffff] { let mut x = h.clone(); x[14] = (l >> 8) as u8; x[15] = l as u8; out.push(x); }
         }
     }
+    // a declared length too small for the family, on a TRUNCATED input (C17: a Partial must be completable)
+    for &(f, sz) in &fams {
+        for l in [0usize, 1, 4, 11, 12, 35, 215] {
+            if l >= sz { continue; }
+            for have in [0usize, l / 2, l.saturating_sub(1)] { if have < l { out.push(v2_header(0x21, f | 0x01, l as u16, &payload[..have])); } }
+        }
+    }
     // long headers
     for l in [0x8000usize, 0xffff] { let big = vec![0xabu8; l]; out.push(v2_header(0x21, 0x11, l as u16, &big)); out.push(v2_header(0x20, 0x00, l as u16, &big[..l - 1])); }
     out.push(Vec::new());
@@ -543,6 +550,9 @@ fn c12_v1_cases() -> Vec<(Vec<u8>, &'static str)> {
     for n in [107usize, 108, 300] { out.push((vec![b'P'; n], "HeaderTooLong")); }
     out.push((b"PROXY UNKNOWN \xff\xfe\r\n".to_vec(), "InvalidUtf8"));
     out.push((b"PROXY TCP4 1.2.3.4 5.6.7.8 80 443\r\xff".to_vec(), "InvalidUtf8"));
+    // the byte after the CR starts a multi-byte character that the end of the input cuts short: still terminal
+    out.push((b"PROXY TCP4 1.2.3.4 5.6.7.8 80 443\r\xc3".to_vec(), "InvalidUtf8"));
+    out.push((b"PROXY UNKNOWN\r\xe2\x82".to_vec(), "InvalidUtf8"));
     out
 }
 
